@@ -363,7 +363,7 @@ let coq inp obs =
           | RuntimeEnvUpdated -> "RuntimeEnvUpdated" in
         let cl = (match b.claimed with Some i -> coq_n i | None -> "(0xffffffffffffffffffff)%N") in
         Some (Printf.sprintf
-          "oc_is (verify unit (fun i => N.eqb i %s && %s) (fun i _ _ => tri3 (N.eqb i %s) %s) (fun i _ _ _ => tri3 (N.eqb i %s) %s) (fun i _ _ _ => tri3 (N.eqb i %s) %s) (fun _ _ => %s) {| n_auth := %s; allowed := %s; randomness := %s |} {| h_rest := tt; h_digest := [%s] |}) %d"
+          "oc_is (verify unit (fun i => andb (N.eqb i %s) %s) (fun i _ _ => tri3 (N.eqb i %s) %s) (fun i _ _ _ => tri3 (N.eqb i %s) %s) (fun i _ _ _ => tri3 (N.eqb i %s) %s) (fun _ _ => %s) {| n_auth := %s; allowed := %s; randomness := %s |} {| h_rest := tt; h_digest := [%s] |}) %d"
           cl (if field "key" key = "1" then "true" else "false")
           cl (tri (field "below" below)) cl (tri (field "vrf" vrf)) cl (tri (field "seal" seal))
           (match eq with "0" -> "F" | "2" -> "T" | _ -> "E")
